@@ -21,7 +21,7 @@ ASSUMPTIONS = ["inputs the docstrings exclude are not generated (identical segme
 CONFIGS = ['scipy']
 BUDGET = {'quick': 2400, 'thorough': 100000}
 REQUIRED = ['pair:LL', 'pair:LQ', 'pair:QC', 'pair:CC', 'pair:AL', 'pair:LA', 'pair:AC', 'pair:AA', 'cfg:crossing', 'cfg:tangent',
-            'cfg:nearmiss', 'cfg:disjoint', 'cfg:random', 'cfg:endtouch', 'cfg:tjunction', 'paths', 'returned_pairs', 'far_from_origin', 'paths_with_twin_arcs']
+            'cfg:nearmiss', 'cfg:disjoint', 'cfg:random', 'cfg:endtouch', 'cfg:tjunction', 'paths', 'returned_pairs', 'far_from_origin', 'paths_with_twin_arcs', 'justonemode_result', 'explicit_tol']
 CASE_TIMEOUT = 8
 TIME_LIMIT = {'quick': 250, 'thorough': 3300}
 
@@ -122,7 +122,7 @@ def pair_case(draw, kinds=None, cfgs=None):
 
 @st.composite
 def paths_case(draw):
-    base = draw(pair_case(cfgs=['crossing', 'crossing', 'random']))
+    base = draw(pair_case(cfgs=['crossing', 'crossing', 'random', 'endtouch', 'tjunction']))
     sc = base['scale']
     extra1 = [draw(curve_through(draw(st.sampled_from('LQC')), X.C(base['P']) + complex(draw(gen.coord(sc)), draw(gen.coord(sc))),
                                  draw(gen.floats_in(0.1, 0.9)), sc)) for _ in range(draw(st.integers(0, 2)))]
@@ -218,7 +218,16 @@ def check_pair(case, ctx):
     r21, e21 = run_intersect(ctx, b, a, tolerated, 'intersect/' + pair[::-1])
     if r12 is None or r21 is None:
         ctx.count('no_output:%s' % type(e12 or e21).__name__)
-    for res, x, y, nm in ((r12, a, b, pair), (r21, b, a, pair[::-1])):
+    # the optional tol argument (Path.intersect hands its own, 1e-12, to every segment pair): whatever it is used for, the pairs
+    # returned are held to the same claims
+    rt = None
+    if not tolerated:
+        try:
+            rt = list(a.intersect(b, tol=1e-12))
+            ctx.count('explicit_tol')
+        except Exception as e:
+            ctx.fail('intersect/%s/tol/raises/%s' % (pair, type(e).__name__), '%s.intersect(tol=1e-12) raised %s: %s' % (pair, type(e).__name__, str(e)[:200]))
+    for res, x, y, nm in ((r12, a, b, pair), (r21, b, a, pair[::-1]), (rt, a, b, pair + '/tol')):
         if res is None:
             continue
         for item in res:
@@ -306,11 +315,28 @@ def check_paths(case, ctx):
         return
     if res:
         ctx.nontrivial()
+    _validate_path_items(ctx, p1, p2, res, tol, '')
+    # the same call in its other mode: only the first intersection found (a single tuple), held to the same claims
+    try:
+        one = p1.intersect(p2, justonemode=True)
+    except Exception as e:
+        if any_general_arc_pair:
+            return
+        ctx.fail('Path.intersect/justonemode/raises/%s' % type(e).__name__, 'Path.intersect(justonemode=True) raised %s: %s' % (type(e).__name__, str(e)[:200]))
+    if isinstance(one, tuple) and len(one) == 2:
+        ctx.count('justonemode_result')
+        _validate_path_items(ctx, p1, p2, [one], tol, 'justonemode/')
+    else:
+        ctx.check(not one, 'path/justonemode/format', 'Path.intersect(justonemode=True) returned %r' % (one,))
+        ctx.check(not res, 'path/justonemode/nothing', 'Path.intersect(justonemode=True) found nothing although the default mode returns %d intersections' % len(res))
+
+
+def _validate_path_items(ctx, p1, p2, res, tol, mode):
     for item in res:
         (T1, seg1, t1), (T2, seg2, t2) = item
         ctx.count('returned_pairs')
-        ctx.check(0 <= T1 <= 1 and 0 <= T2 <= 1 and 0 <= t1 <= 1 and 0 <= t2 <= 1, 'path/out_of_range', 'Path.intersect returned %r' % (item,))
-        ctx.check(any(seg1 is s for s in p1) and any(seg2 is s for s in p2), 'path/segment_not_member', 'returned segments are not members of the paths')
+        ctx.check(0 <= T1 <= 1 and 0 <= T2 <= 1 and 0 <= t1 <= 1 and 0 <= t2 <= 1, 'path/' + mode + 'out_of_range', 'Path.intersect returned %r' % (item,))
+        ctx.check(any(seg1 is s for s in p1) and any(seg2 is s for s in p2), 'path/' + mode + 'segment_not_member', 'returned segments are not members of the paths')
         pts = [complex(seg1.point(t1)), complex(seg2.point(t2))]
         # at a discontinuous joint the path parameter T names two points (C05 accepts either neighbour there), so
         # path.point(T) is compared only away from such joints
@@ -322,8 +348,8 @@ def check_paths(case, ctx):
             else:
                 pts.append(complex(pth.point(T)))
         d = max(abs(x - y) for x in pts for y in pts)
-        ctx.check(d <= tol, 'path/points_differ', 'Path.intersect tuple %r: the four points are %.3g apart (allowed %.3g): %r' % (item, d, tol, pts))
+        ctx.check(d <= tol, 'path/' + mode + 'points_differ', 'Path.intersect tuple %r: the four points are %.3g apart (allowed %.3g): %r' % (item, d, tol, pts))
         # T and (seg, t) name the same location
         k1 = [i for i, s in enumerate(p1) if s is seg1][0]
         k2 = [i for i, s in enumerate(p2) if s is seg2][0]
-        ctx.check(abs(p1.t2T(k1, t1) - T1) <= 1e-9 and abs(p2.t2T(k2, t2) - T2) <= 1e-9, 'path/T_t_mismatch', 'T values do not correspond to (segment, t)')
+        ctx.check(abs(p1.t2T(k1, t1) - T1) <= 1e-9 and abs(p2.t2T(k2, t2) - T2) <= 1e-9, 'path/' + mode + 'T_t_mismatch', 'T values do not correspond to (segment, t)')
